@@ -59,13 +59,15 @@ struct Desc<V, E> {
 
 /// the view machine: BFS over contents; every write view followed by every read view
 fn machine<V: Send + Sync + 'static, E: El>(rep: &mut Report, d: Desc<V, E>) {
+    use std::sync::Arc;
     let depth = rep.pick(2, 3);
+    let d = Arc::new(d);
     let n = d.n;
     let fresh = 2usize;
     let (nw, ns) = (d.writes.len(), d.swaps.len());
     let nact = nw * n * fresh + ns * n * n;
     let init: Vec<u8> = (0..n as u8).collect();
-    let read_all = |ctx: &mut Ctx, v: &V, model: &[u8], after: &str| {
+    fn read_all<V, E: El>(d: &Desc<V, E>, ctx: &mut Ctx, v: &V, model: &[u8], after: &str) {
         let want: Vec<E> = model.iter().map(|l| E::label(*l as usize)).collect();
         for (rname, rf) in &d.reads {
             ctx.t();
@@ -74,50 +76,70 @@ fn machine<V: Send + Sync + 'static, E: El>(rep: &mut Report, d: Desc<V, E>) {
                 ctx.fail(&key(&format!("{}/read:{rname}", d.name.split('<').next().unwrap())), || format!("after {after}: view `{rname}` shows {:?}, contents are {:?}", got, want));
             }
         }
-    };
+    }
+    let d1 = d.clone();
+    let step = Arc::new(move |st: &Vec<u8>, act: usize, ctx: &mut Ctx| -> Option<Vec<u8>> {
+        let d = &d1;
+        let vals: Vec<E> = st.iter().map(|l| E::label(*l as usize)).collect();
+        let mut v = (d.mk)(&vals);
+        let mut model = st.clone();
+        let after;
+        if act < nw * n * fresh {
+            let (w, rest) = (act / (n * fresh), act % (n * fresh));
+            let (i, l) = (rest / fresh, (n + rest % fresh) as u8);
+            (d.writes[w].1)(&mut v, i, E::label(l as usize));
+            model[i] = l;
+            after = format!("write of {:?} at index {i} through `{}`", E::label(l as usize), d.writes[w].0);
+            ctx.branch(d.writes[w].0);
+        } else {
+            let a = act - nw * n * fresh;
+            let (s, rest) = (a / (n * n), a % (n * n));
+            let (i, j) = (rest / n, rest % n);
+            (d.swaps[s].1)(&mut v, i, j);
+            model.swap(i, j);
+            after = format!("`{}`({i},{j})", d.swaps[s].0);
+            ctx.branch(d.swaps[s].0);
+        }
+        read_all(d, ctx, &v, &model, &after);
+        if ctx.failed() {
+            return None;
+        }
+        Some(model)
+    });
+    let (s1, d2) = (step.clone(), d.clone());
     rep.bfs(
         &format!("views/{}", d.name),
         "L",
         &format!("contents of {n} labelled components; {nw} write views x {n} indices x {fresh} fresh labels + {ns} swap operations x {n}^2 index pairs; {} read views after every step; depth {depth}", d.reads.len()),
-        vec![init],
+        vec![init.clone()],
         nact,
         depth,
         Guard::states(3),
-        |st, act, ctx| {
-            let vals: Vec<E> = st.iter().map(|l| E::label(*l as usize)).collect();
-            let mut v = (d.mk)(&vals);
-            let mut model = st.clone();
-            let after;
-            if act < nw * n * fresh {
-                let (w, rest) = (act / (n * fresh), act % (n * fresh));
-                let (i, l) = (rest / fresh, (n + rest % fresh) as u8);
-                (d.writes[w].1)(&mut v, i, E::label(l as usize));
-                model[i] = l;
-                after = format!("write of {:?} at index {i} through `{}`", E::label(l as usize), d.writes[w].0);
-                ctx.branch(d.writes[w].0);
-            } else {
-                let a = act - nw * n * fresh;
-                let (s, rest) = (a / (n * n), a % (n * n));
-                let (i, j) = (rest / n, rest % n);
-                (d.swaps[s].1)(&mut v, i, j);
-                model.swap(i, j);
-                after = format!("`{}`({i},{j})", d.swaps[s].0);
-                ctx.branch(d.swaps[s].0);
-            }
-            read_all(ctx, &v, &model, &after);
-            if ctx.failed() {
-                return None;
-            }
-            Some(model)
-        },
-        |st, ctx| {
+        move |st, act, ctx| s1(st, act, ctx),
+        move |st, ctx| {
             ctx.out(st);
             let vals: Vec<E> = st.iter().map(|l| E::label(*l as usize)).collect();
-            let v = (d.mk)(&vals);
-            read_all(ctx, &v, st, "construction");
+            let v = (d2.mk)(&vals);
+            read_all(&d2, ctx, &v, st, "construction");
         },
         |st| format!("{:?}", st),
     );
+    // cross-check of the engine: the same transition function under stateright's own BFS
+    if rep.replay.is_none() {
+        if let Some((states, _)) = rep.last_counts() {
+            let s2 = step.clone();
+            let sr = mc_props0::stateright_states(vec![init], nact, depth, move |s: &Vec<u8>, a: usize| {
+                let mut c = Ctx::scratch();
+                let r = s2(s, a, &mut c);
+                if c.failed() { None } else { r }
+            });
+            if sr as u64 != states {
+                rep.machinery.push(format!("views/{}: engine cross-check failed: stateright reaches {sr} unique states, own BFS {states}", d.name));
+            } else {
+                rep.sr_agree += 1;
+            }
+        }
+    }
 }
 
 // ------------------------------------------------------------------ descriptors
@@ -605,5 +627,7 @@ fn main() {
     shape::<f32>(&mut rep);
     shape::<f64>(&mut rep);
     swizzles(&mut rep);
+    let n = rep.sr_agree;
+    rep.note(format!("{n} view machines cross-checked: stateright 0.31 (single-threaded BFS over the same transition function) reaches the same number of unique states as the own engine"));
     std::process::exit(rep.finish());
 }
